@@ -34,6 +34,7 @@ import (
 type El struct {
 	N string      `json:"n"`
 	A [][2]string `json:"a,omitempty"`
+	K []El        `json:"k,omitempty"` // child elements (w:cols/w:col, w:pgBorders/w:top, w:sectPrChange/w:sectPr/...)
 }
 
 // Start describes the opened package. nil = the history starts from document.New().
@@ -42,6 +43,13 @@ type Start struct {
 	Sect    []El `json:"sect,omitempty"`    // children of the body-level w:sectPr, in file order
 	HasPara bool `json:"haspara,omitempty"` // an earlier paragraph closes a section of its own (w:pPr/w:sectPr)
 	Para    []El `json:"para,omitempty"`    // children of that paragraph-level w:sectPr
+	// widened shapes (all optional; the zero value is the plain shape of the earlier rounds)
+	MorePara [][]El      `json:"morepara,omitempty"` // further earlier sections in front of Para's (each a paragraph-level w:sectPr)
+	Prefix   string      `json:"prefix,omitempty"`   // namespace prefix of the main part instead of "w" (ns0, wx ...)
+	Pretty   bool        `json:"pretty,omitempty"`   // indented main part: white space between all elements
+	Long     bool        `json:"long,omitempty"`     // <w:pgSz ...></w:pgSz> instead of <w:pgSz .../>
+	SectA    [][2]string `json:"secta,omitempty"`    // attributes of the body-level w:sectPr itself (w:rsidR, w:rsidSect ...)
+	Hdr      bool        `json:"hdr,omitempty"`      // the section refers to a header and a footer part (w:headerReference/w:footerReference with r:id)
 }
 
 const (
@@ -72,34 +80,141 @@ func xmlEsc(s string) string {
 	return strings.NewReplacer("&", "&amp;", "<", "&lt;", ">", "&gt;", `"`, "&quot;").Replace(s)
 }
 
-func sectXML(els []El) string {
-	var b strings.Builder
-	b.WriteString(`<w:sectPr>`)
-	for _, e := range els {
-		b.WriteString(`<w:` + e.N)
-		for _, a := range e.A {
-			fmt.Fprintf(&b, ` w:%s="%s"`, a[0], xmlEsc(a[1]))
-		}
-		b.WriteString(`/>`)
+func (s *Start) pfx() string {
+	if s.Prefix == "" {
+		return "w"
 	}
-	b.WriteString(`</w:sectPr>`)
+	return s.Prefix
+}
+
+// render writes one element with its attributes and children. ind < 0: no white space.
+func (s *Start) render(b *strings.Builder, e El, ind int) {
+	p := s.pfx()
+	nl := func(d int) {
+		if ind >= 0 {
+			b.WriteString("\n" + strings.Repeat("  ", ind+d))
+		}
+	}
+	nl(0)
+	b.WriteString("<" + p + ":" + e.N)
+	for _, a := range e.A {
+		n := p + ":" + a[0]
+		if strings.Contains(a[0], ":") { // an attribute of another namespace (r:id), written as given
+			n = a[0]
+		}
+		fmt.Fprintf(b, ` %s="%s"`, n, xmlEsc(a[1]))
+	}
+	if len(e.K) == 0 {
+		if s.Long {
+			b.WriteString("></" + p + ":" + e.N + ">")
+		} else {
+			b.WriteString("/>")
+		}
+		return
+	}
+	b.WriteString(">")
+	for _, k := range e.K {
+		ki := ind
+		if ind >= 0 {
+			ki = ind + 1
+		}
+		s.render(b, k, ki)
+	}
+	nl(0)
+	b.WriteString("</" + p + ":" + e.N + ">")
+}
+
+func (s *Start) sectEl(els []El, body bool) El {
+	e := El{N: "sectPr", K: els}
+	if body {
+		e.A = s.SectA
+		if s.Hdr {
+			refs := []El{{N: "headerReference", A: [][2]string{{"type", "default"}, {"r:id", "rId7"}}}, {N: "footerReference", A: [][2]string{{"type", "default"}, {"r:id", "rId8"}}}}
+			e.K = append(refs, els...)
+		}
+	}
+	return e
+}
+
+func (s *Start) sectXML(els []El, body bool, ind int) string {
+	var b strings.Builder
+	e := s.sectEl(els, body)
+	if len(e.K) == 0 { // an empty w:sectPr is written with an end tag, as the earlier rounds did
+		p := s.pfx()
+		if ind >= 0 {
+			b.WriteString("\n" + strings.Repeat("  ", ind))
+		}
+		b.WriteString("<" + p + ":sectPr")
+		for _, a := range e.A {
+			fmt.Fprintf(&b, ` %s:%s="%s"`, p, a[0], xmlEsc(a[1]))
+		}
+		b.WriteString("></" + p + ":sectPr>")
+		return b.String()
+	}
+	s.render(&b, e, ind)
 	return b.String()
 }
 
-// docx renders the smallest package around the section settings: content types, package relationships, main part.
-func (s *Start) docx() ([]byte, error) {
+const (
+	nsR          = "http://schemas.openxmlformats.org/officeDocument/2006/relationships"
+	startCTHdr   = `<?xml version="1.0" encoding="UTF-8" standalone="yes"?><Types xmlns="http://schemas.openxmlformats.org/package/2006/content-types"><Default Extension="rels" ContentType="application/vnd.openxmlformats-package.relationships+xml"/><Default Extension="xml" ContentType="application/xml"/><Override PartName="/word/document.xml" ContentType="application/vnd.openxmlformats-officedocument.wordprocessingml.document.main+xml"/><Override PartName="/word/header1.xml" ContentType="application/vnd.openxmlformats-officedocument.wordprocessingml.header+xml"/><Override PartName="/word/footer1.xml" ContentType="application/vnd.openxmlformats-officedocument.wordprocessingml.footer+xml"/></Types>`
+	startDocRels = `<?xml version="1.0" encoding="UTF-8" standalone="yes"?><Relationships xmlns="http://schemas.openxmlformats.org/package/2006/relationships"><Relationship Id="rId7" Type="http://schemas.openxmlformats.org/officeDocument/2006/relationships/header" Target="header1.xml"/><Relationship Id="rId8" Type="http://schemas.openxmlformats.org/officeDocument/2006/relationships/footer" Target="footer1.xml"/></Relationships>`
+	startHeader  = `<?xml version="1.0" encoding="UTF-8" standalone="yes"?><w:hdr xmlns:w="` + nsW + `"><w:p><w:r><w:t>header of another producer</w:t></w:r></w:p></w:hdr>`
+	startFooter  = `<?xml version="1.0" encoding="UTF-8" standalone="yes"?><w:ftr xmlns:w="` + nsW + `"><w:p><w:r><w:t>footer of another producer</w:t></w:r></w:p></w:ftr>`
+)
+
+// mainXML renders the main part.
+func (s *Start) mainXML() string {
+	p := s.pfx()
+	ind := -1
+	if s.Pretty {
+		ind = 2
+	}
+	nl := func(d int) string {
+		if !s.Pretty {
+			return ""
+		}
+		return "\n" + strings.Repeat("  ", d)
+	}
+	para := func(text, ppr string) string {
+		return nl(2) + "<" + p + ":p>" + ppr + nl(3) + "<" + p + ":r>" + nl(4) + "<" + p + ":t>" + text + "</" + p + ":t>" + nl(3) + "</" + p + ":r>" + nl(2) + "</" + p + ":p>"
+	}
+	ppr := func(els []El) string {
+		i := -1
+		if s.Pretty {
+			i = 4
+		}
+		return nl(3) + "<" + p + ":pPr>" + s.sectXML(els, false, i) + nl(3) + "</" + p + ":pPr>"
+	}
 	var body strings.Builder
+	for i, mp := range s.MorePara {
+		body.WriteString(para(fmt.Sprintf("section %d", i), ppr(mp)))
+	}
 	if s.HasPara {
-		body.WriteString(`<w:p><w:pPr>` + sectXML(s.Para) + `</w:pPr><w:r><w:t>first section</w:t></w:r></w:p>`)
+		body.WriteString(para("first section", ppr(s.Para)))
 	}
-	body.WriteString(`<w:p><w:r><w:t>text</w:t></w:r></w:p>`)
+	body.WriteString(para("text", ""))
 	if !s.NoSect {
-		body.WriteString(sectXML(s.Sect))
+		body.WriteString(s.sectXML(s.Sect, true, ind))
 	}
-	main := `<?xml version="1.0" encoding="UTF-8" standalone="yes"?><w:document xmlns:w="` + nsW + `"><w:body>` + body.String() + `</w:body></w:document>`
+	xr := ""
+	if s.Hdr {
+		xr = ` xmlns:r="` + nsR + `"`
+	}
+	return `<?xml version="1.0" encoding="UTF-8" standalone="yes"?>` + nl(0) + "<" + p + `:document xmlns:` + p + `="` + nsW + `"` + xr + ">" + nl(1) + "<" + p + ":body>" + body.String() + nl(1) + "</" + p + ":body>" + nl(0) + "</" + p + ":document>"
+}
+
+// docx renders the smallest package around the section settings: content types, package relationships, main part
+// (and, with Hdr, the header and footer parts the section refers to with their relationships).
+func (s *Start) docx() ([]byte, error) {
+	parts := [][2]string{{"[Content_Types].xml", startCT}, {"_rels/.rels", startRels}, {"word/document.xml", s.mainXML()}}
+	if s.Hdr {
+		parts[0][1] = startCTHdr
+		parts = append(parts, [2]string{"word/_rels/document.xml.rels", startDocRels}, [2]string{"word/header1.xml", startHeader}, [2]string{"word/footer1.xml", startFooter})
+	}
 	var buf bytes.Buffer
 	zw := zip.NewWriter(&buf)
-	for _, e := range [][2]string{{"[Content_Types].xml", startCT}, {"_rels/.rels", startRels}, {"word/document.xml", main}} {
+	for _, e := range parts {
 		f, err := zw.CreateHeader(&zip.FileHeader{Name: e[0], Method: zip.Deflate})
 		if err != nil {
 			return nil, err
@@ -152,9 +267,19 @@ func validSect(els []El) string {
 			}
 			an[a[0]] = true
 		}
+		if m := validKids(e.K); m != "" {
+			return m
+		}
 		switch e.N {
 		case "headerReference", "footerReference":
-			return "references need parts the description does not write"
+			return "references need parts the description does not write (see Start.Hdr)"
+		case "sectPr":
+			return "w:sectPr as a child of w:sectPr"
+		}
+		if (e.N == "pgSz" || e.N == "pgMar" || e.N == "docGrid") && len(e.K) > 0 {
+			return "children of the empty element w:" + e.N
+		}
+		switch e.N {
 		case "pgSz":
 			for _, n := range []string{"w", "h"} {
 				v, ok := e.attr(n)
@@ -205,6 +330,28 @@ func validSect(els []El) string {
 	return ""
 }
 
+// validKids: child elements carry nothing of the settings; only their names have to be XML names.
+func validKids(ks []El) string {
+	for _, k := range ks {
+		if !nameRe.MatchString(k.N) {
+			return "element name " + k.N
+		}
+		an := map[string]bool{}
+		for _, a := range k.A {
+			if !nameRe.MatchString(a[0]) || an[a[0]] {
+				return "attribute " + a[0] + " of " + k.N
+			}
+			an[a[0]] = true
+		}
+		if m := validKids(k.K); m != "" {
+			return m
+		}
+	}
+	return ""
+}
+
+var prefixRe = regexp.MustCompile(`^[A-Za-z][A-Za-z0-9]{0,7}$`)
+
 // valid: the description is inside the domain (hand-written and shrunk cases pass through here too).
 func (s *Start) valid() string {
 	if s.NoSect && len(s.Sect) > 0 {
@@ -217,6 +364,27 @@ func (s *Start) valid() string {
 	}
 	if !s.HasPara && len(s.Para) > 0 {
 		return "children of an absent paragraph-level w:sectPr"
+	}
+	if s.NoSect && (len(s.MorePara) > 0 || len(s.SectA) > 0 || s.Hdr) {
+		return "earlier sections, attributes or references of an absent body-level w:sectPr"
+	}
+	if s.Prefix != "" && (!prefixRe.MatchString(s.Prefix) || strings.HasPrefix(strings.ToLower(s.Prefix), "xml") || s.Prefix == "r") {
+		return "prefix " + s.Prefix
+	}
+	an := map[string]bool{}
+	for _, a := range s.SectA {
+		if !nameRe.MatchString(a[0]) || an[a[0]] {
+			return "attribute " + a[0] + " of w:sectPr"
+		}
+		an[a[0]] = true
+	}
+	if len(s.MorePara) > 8 {
+		return "more than 9 earlier sections"
+	}
+	for _, mp := range s.MorePara {
+		if m := validSect(mp); m != "" {
+			return m
+		}
 	}
 	if m := validSect(s.Sect); m != "" {
 		return m
@@ -295,6 +463,7 @@ func (s *Start) model() (m model, ambiguous bool) {
 		}
 	}
 	if mar := find(s.Sect, "pgMar"); mar != nil {
+		m.MarNamed = true
 		dst := []*float64{&m.M[0], &m.M[1], &m.M[2], &m.M[3], &m.Hd, &m.Fd, &m.Gut}
 		for i, n := range marNames {
 			if v, ok := mar.attr(n); ok {
@@ -306,12 +475,15 @@ func (s *Start) model() (m model, ambiguous bool) {
 	if g := find(s.Sect, "docGrid"); g != nil {
 		if v, ok := g.attr("type"); ok {
 			m.Grid = v
+			m.GridNamed[0] = true
 		}
 		if v, ok := g.attr("linePitch"); ok {
 			m.LP, _ = atoi(v)
+			m.GridNamed[1] = true
 		}
 		if v, ok := g.attr("charSpace"); ok {
 			m.CS, _ = atoi(v)
+			m.GridNamed[2] = true
 		}
 	}
 	return m, ambiguous
@@ -446,6 +618,42 @@ func genDocGrid(t *rapid.T) El {
 	return e
 }
 
+// children with children of their own: columns of unequal width (w:col carries w:w like w:pgSz), page borders (w:top,
+// w:left ... like the w:pgMar attributes) and a tracked change of the section properties, which holds the PREVIOUS
+// section properties - a complete w:sectPr with its own w:pgSz/w:pgMar/w:docGrid - inside the current ones.
+func genNested(t *rapid.T, pre string) []El {
+	var out []El
+	if chance(t, pre+"colkids", 1, 2) {
+		out = append(out, El{N: "cols", A: [][2]string{{"num", "2"}, {"equalWidth", "0"}}, K: []El{{N: "col", A: [][2]string{{"w", "4000"}, {"space", "720"}}}, {N: "col", A: [][2]string{{"w", "3000"}}}}})
+	}
+	if chance(t, pre+"borders", 1, 2) {
+		b := func(n string) El {
+			return El{N: n, A: [][2]string{{"val", "single"}, {"sz", "4"}, {"space", "24"}, {"color", "auto"}}}
+		}
+		out = append(out, El{N: "pgBorders", A: [][2]string{{"offsetFrom", "page"}}, K: []El{b("top"), b("left"), b("bottom"), b("right")}})
+	}
+	return out
+}
+
+func genChange(t *rapid.T, pre string) El {
+	old := []El{}
+	if chance(t, pre+"chsz", 8, 10) {
+		p := rapid.SampledFrom(stdTw).Draw(t, pre+"chstd")
+		e := El{N: "pgSz", A: [][2]string{{"w", strconv.Itoa(p[1])}, {"h", strconv.Itoa(p[0])}, {"orient", "landscape"}}}
+		if rapid.Bool().Draw(t, pre+"chport") {
+			e = El{N: "pgSz", A: [][2]string{{"w", strconv.Itoa(p[0])}, {"h", strconv.Itoa(p[1])}}}
+		}
+		old = append(old, e)
+	}
+	if chance(t, pre+"chmar", 8, 10) {
+		old = append(old, El{N: "pgMar", A: [][2]string{{"top", "567"}, {"right", "851"}, {"bottom", "567"}, {"left", "851"}, {"header", "284"}, {"footer", "284"}, {"gutter", "113"}}})
+	}
+	if chance(t, pre+"chgrid", 5, 10) {
+		old = append(old, El{N: "docGrid", A: [][2]string{{"type", "linesAndChars"}, {"linePitch", "435"}, {"charSpace", "2049"}}})
+	}
+	return El{N: "sectPrChange", A: [][2]string{{"id", "3"}, {"author", "reviewer"}, {"date", "2024-05-06T07:08:00Z"}}, K: []El{{N: "sectPr", K: old}}}
+}
+
 // other children of CT_SectPr that carry nothing of the page settings
 var otherEls = []El{
 	{N: "type", A: [][2]string{{"val", "nextPage"}}},
@@ -479,8 +687,25 @@ func genSect(t *rapid.T, pre string) []El {
 	if chance(t, pre+"hasgrid", 13, 20) {
 		els = append(els, genDocGrid(t))
 	}
+	if chance(t, pre+"nested", 3, 20) {
+		for _, n := range genNested(t, pre) {
+			if n.N == "cols" { // in place of the plain w:cols, if any
+				kept := els[:0:0]
+				for _, e := range els {
+					if e.N != "cols" {
+						kept = append(kept, e)
+					}
+				}
+				els = kept
+			}
+			els = append(els, n)
+		}
+	}
 	if chance(t, pre+"shuf", 4, 10) {
 		els = shuffle(t, pre+"si", els)
+	}
+	if chance(t, pre+"change", 1, 10) { // schema order: the tracked change is the last child
+		els = append(els, genChange(t, pre))
 	}
 	return els
 }
@@ -495,6 +720,23 @@ func genStart(t *rapid.T) *Start {
 	if !s.NoSect && chance(t, "haspara", 1, 12) {
 		s.HasPara = true
 		s.Para = genSect(t, "p")
+		if chance(t, "morepara", 1, 3) { // several sections; rarely ten and more
+			n := rapid.SampledFrom([]int{1, 1, 2, 2, 3, 8}).Draw(t, "nmore")
+			for i := 0; i < n; i++ {
+				s.MorePara = append(s.MorePara, genSect(t, "q"))
+			}
+		}
+	}
+	if chance(t, "prefix", 1, 8) {
+		s.Prefix = rapid.SampledFrom([]string{"ns0", "wx", "W", "w10"}).Draw(t, "prefixv")
+	}
+	s.Pretty = chance(t, "pretty", 1, 6)
+	s.Long = chance(t, "long", 1, 6)
+	if !s.NoSect {
+		if chance(t, "secta", 1, 3) {
+			s.SectA = [][2]string{{"rsidR", "00A12B3C"}, {"rsidRPr", "00D45E6F"}, {"rsidSect", "001A2B3C"}}[:rapid.IntRange(1, 3).Draw(t, "nsecta")]
+		}
+		s.Hdr = chance(t, "hdr", 1, 5)
 	}
 	return s
 }
